@@ -211,6 +211,7 @@ def run(ctx):
     import translate_staged
     translate_staged.check(ctx)       # staged_write_path / staged_write compiled from _file_store.py and linked to Store/Staged.v by a theorem
     unusual_faults(ctx)
+    errno_flavoured_faults(ctx)
     leftover_without_target(ctx)
     mounted_over_staged_copy(ctx)
     file_size_limit(ctx)
@@ -381,6 +382,38 @@ def run(ctx):
     for (meta, c), o in list(zip(cases, obs))[:400:97]:
         if o:
             ctx.samples.append({"case": cc.enc(c), "op": meta["op"], "outcome": o["outcome"], "listing": o["listing"]})
+
+
+def errno_flavoured_faults(ctx):
+    """The I/O error at file operation k is one of the specific OSError subclasses the OS reports (PermissionError, FileNotFoundError,
+    InterruptedError ...), for values that serialise AND for values whose serialisation fails part-way: whatever the code does about the
+    error, the target afterwards holds the complete previous value (modified time unmoved) or the complete new one, and a write that
+    raised leaves no staging file."""
+    for writer in ("json", "pickle", "text", "binary", "sw_bin", "swp"):
+        vals = cc.values_for(writer, True)
+        names = [cc.GOOD_VALUE[writer]] + [n for n in vals if n.startswith(("bad", "big_bad", "raise"))][:2]
+        for vname in names:
+            clean = cc.run_case({"writer": writer, "value": vname, "pathkind": "str", "old_bytes": cc.OLD, "kind": 0, "k": -1})
+            nops = len(clean.get("log") or [])
+            new_bytes = clean["target"] if clean["outcome"] == 0 else None
+            for pk in ("str", "pathlib"):
+                for flavour in cc.ERRNO_FLAVOURS:
+                    for k in range(nops):
+                        case = {"writer": writer, "value": vname, "pathkind": pk, "old_bytes": cc.OLD, "kind": 1, "k": k, "pre": 0, "exc": flavour}
+                        r = cc.run_case(case)
+                        ctx.case(("c11-errno", writer, vname, pk, flavour, k))
+                        op = (r.get("log") or [[None]])[k][0] if k < len(r.get("log") or []) else "?"
+                        t, moved = r["target"], r["mtime_changed"]
+                        ok_old = t == cc.OLD and not moved
+                        ok_new = new_bytes is not None and t == new_bytes
+                        rep = dict(case, old_bytes=None, operation=op, outcome=r["outcome"], listing=r["listing"])
+                        if not (ok_old or ok_new):
+                            ctx.fail("errno:target", "%s store writing the value %r (%s path): %s at file operation %d (%s): afterwards the target holds %s (%d bytes; modified time %s) - "
+                                     "neither the complete previous value nor the complete new one"
+                                     % (writer, vname, pk, flavour, k, op, "nothing" if t is None else "a truncated / mixed value", len(t or b""), "moved" if moved else "unmoved"), rep)
+                        elif r["outcome"] == 1 and r["staging"] is not None and op not in ("remove", "os.unlink"):      # (a fault in the clean-up itself cannot be cleaned up)
+                            ctx.fail("errno:staging-left", "%s store writing %r (%s path): %s at file operation %d (%s): the write raised and left the staging file behind"
+                                     % (writer, vname, pk, flavour, k, op), rep)
 
 
 def leftover_without_target(ctx):
